@@ -8,6 +8,7 @@ import EaselModel.Miniapps.Weight
 import EaselModel.Miniapps.ReformatMsa
 import EaselModel.Miniapps.Alimask
 import EaselModel.Miniapps.Alimanip
+import EaselModel.Miniapps.Afetch
 /-! # C13 — command-line front end of the reference functions: `runTool tool argv files` = predicted stdout -/
 namespace EaselModel.Miniapps
 
@@ -616,6 +617,41 @@ def runAlimanip (argv : List String) (files : String → Option (List Char)) : O
   let [fn] := p.pos | none
   (Ali.alimanip o fa ta infmt (c2b (← files fn))).map b2s
 
+/-- esl-afetch --informat (stockholm|pfam) [--outformat fmt] [-o f | -O] <msafile> <key>  |  -f <msafile> <keyfile>  |  --index <msafile>.
+    An index is present when the file `<msafile>.ssi` is (the driver records it when it sees `--index`). -/
+def runAfetchFull (argv : List String) (files : String → Option (List Char)) : Option (String × List (String × List Char)) := do
+  let p ← parseArgs ["-f", "-O", "--index"] ["-o", "--informat", "--outformat"] argv {}
+  let infmt ← p.val? "--informat"
+  if infmt != "stockholm" && infmt != "pfam" then none
+  let outfmt := (p.val? "--outformat").getD "stockholm"
+  if !msaFormats.contains outfmt then none
+  let fn ← p.pos.head?
+  let src ← files fn
+  if (files (fn ++ ".ssi.unknown")).isSome then none
+  if p.has "--index" then
+    if p.pos.length != 1 || p.has "-f" || p.has "-O" || (p.val? "-o").isSome || (p.val? "--outformat").isSome then none
+    if (files (fn ++ ".ssi")).isSome then none
+    let recs ← Ali.spansOf infmt (c2b src)
+    if recs.isEmpty || !Ali.indexable recs then none
+    some (Ali.indexReport fn recs, [(fn ++ ".ssi", [])])
+  else
+    let o : Ali.AfetchOpts := { infmt := infmt, outfmt := outfmt, hasSsi := (files (fn ++ ".ssi")).isSome }
+    let [_, a2] := p.pos | none
+    if p.has "-f" then
+      if p.has "-O" then none
+      let (out, nali) ← Ali.afetchMulti o (c2b src) (c2b (← files a2))
+      match p.val? "-o" with
+      | some f => some ("\nRetrieved " ++ toString nali ++ " alignments.\n", [(f, b2c out)])
+      | none => some (b2s out, [])
+    else
+      let out ← Ali.afetchOne o (c2b src) (c2b a2.toList)
+      let note := "\n\nRetrieved alignment " ++ a2 ++ ".\n"
+      match p.val? "-o", p.has "-O" with
+      | some f, false => some (note, [(f, b2c out)])
+      | none, true => some (note, [(a2, b2c out)])
+      | none, false => some (b2s out, [])
+      | _, _ => none
+
 def runSfetch (argv : List String) (files : String → Option (List Char)) : Option String :=
   (runSfetchFull argv files).map (·.1)
 
@@ -648,6 +684,7 @@ def runToolFull (tool : String) (argv : List String) (files : String → Option 
     Option (String × List (String × List Char)) :=
   if tool == "esl-sfetch" then runSfetchFull argv files
   else if tool == "esl-alimask" then runAlimaskFull argv files
+  else if tool == "esl-afetch" then runAfetchFull argv files
   else if ["esl-shuffle", "esl-reformat", "esl-mask", "esl-weight", "esl-alimanip"].contains tool then
     match splitO argv [] with
     | some (f, rest) => (runToolCore tool rest files).map fun out => ("", [(f, out.toList)])
